@@ -281,6 +281,12 @@ def check_item_loops(P, R):
                 if modes <= {"rw++", "rw--"}:
                     R.ob(rule, site + ": counter", True)
                     continue
+                # the loop's own index, declared outside the loop: stepped by one and tested in the loop's condition -- it says which
+                # item is worked on, it carries nothing from one item to the next
+                cnd = lp["c"][1] if lp["k"] == "ForStmt" else (lp["c"][0] if lp["k"] == "WhileStmt" else lp["c"][1])
+                if modes <= {"r", "rw++", "rw--"} and cnd is not None and any(y.get("k") == "DeclRefExpr" and y.get("d") == did for y in walk(cnd)):
+                    R.ob(rule, site + ": the loop's index", True)
+                    continue
                 if modes <= {"w", "rw|="} and all(v is not None for m, _, v, _ in uses if m == "w"):
                     R.ob(rule, site + ": sticky status", True)
                     continue
